@@ -953,6 +953,25 @@ func (h *H) ccittWide() {
 func (h *H) ccittCase(f pdf.FilterCCITTFax, data []byte, cols, rows int) {
 	e := h.e
 	label := fmt.Sprintf("K=%d EndOfLine=%v EncodedByteAlign=%v EndOfBlock=%v Rows=%d Columns=%d BlackIs1=%v", f.K, f.EndOfLine, f.EncodedByteAlign, !f.IgnoreEndOfBlock, f.Rows, cols, f.BlackIs1)
+	if f.K < 0 && (cols <= 300 || cols <= 3000 && e.Rand.IntN(12) == 0) {
+		// the Coq model of T.6 coding (coq/C06/CCITT2D.v) as a second referee for Group 4 (both directions)
+		if enc, err := libEncode(f, pdf.V1_7, data); err == nil {
+			geoMax := max(1, min(1<<16, (128<<20)/cols))
+			maxRows := geoMax
+			if f.Rows > 0 && f.Rows < geoMax {
+				maxRows = f.Rows
+			}
+			b := func(v bool) int {
+				if v {
+					return 1
+				}
+				return 0
+			}
+			spec := fmt.Sprintf("g4:%d:%d:%d:%d:%d", cols, b(f.EncodedByteAlign), b(f.BlackIs1), b(f.IgnoreEndOfBlock), maxRows)
+			h.modelLines(spec, enc, data, nil, true)
+			e.Count(true, spec+common.Hex(data), "ccitt-g4-model-referee")
+		}
+	}
 	if f.K == 0 && (cols <= 300 || cols <= 10000 && e.Rand.IntN(4) == 0) {
 		// the Coq model of T.4 one-dimensional coding as a second referee (both directions)
 		if enc, err := libEncode(f, pdf.V1_7, data); err == nil {
@@ -1019,6 +1038,12 @@ func filterFor(spec string) (pdf.Filter, *predict.Params) {
 		return pdf.FilterLZW{OffByOne: true}, nil
 	}
 	parts := strings.Split(spec, ":")
+	if len(parts) == 6 && parts[0] == "g4" {
+		cols, _ := strconv.Atoi(parts[1])
+		rows, _ := strconv.Atoi(parts[5])
+		return pdf.FilterCCITTFax{K: -1, Columns: cols, EncodedByteAlign: parts[2] == "1",
+			BlackIs1: parts[3] == "1", IgnoreEndOfBlock: parts[4] == "1", Rows: rows}, nil
+	}
 	if len(parts) == 7 && parts[0] == "g3" {
 		cols, _ := strconv.Atoi(parts[1])
 		rows, _ := strconv.Atoi(parts[6])
